@@ -4,6 +4,7 @@ import ast
 
 from . import smt
 from .types import PT, INT, BOOL, EXT, NONE, STR, Opt, Seq, Set, Arr, Map, Tup
+from .types import mangle
 from .values import (
     SV,
     ObjRef,
@@ -265,6 +266,13 @@ class CallMixin:
                     return SV(ops.arr_len(x), INT)
                 if x.pt.kind == "tuple":
                     return len(x.pt.args)
+                if x.pt.kind == "map":
+                    # len(dict): the cardinality of the key set - an uninterpreted function of the key set; what the contracts need of it
+                    # (pigeonhole facts) is stated there as assumed lemmas
+                    dom = ops.map_dom(x)
+                    fn = "card_" + mangle(self.tenv.sort(x.pt.args[0]))
+                    self.ctx.declare_fun(fn, [smt.ArraySort(self.tenv.sort(x.pt.args[0]), "Bool")], "Int")
+                    return SV(self.ctx.app(fn, dom), INT)
             raise Unsupported(f"len of {x!r}")
         if name in ("min", "max"):
             if len(args) == 1 and isinstance(args[0], (tuple, list)):
@@ -513,9 +521,37 @@ class CallMixin:
                 self.safety(st, smt.Ge(t, smt.Int(0)), "bit_length of a non-negative integer (only case modelled)")
                 return SV(self.ctx.app("bl", t), INT)
             if k == "seq" and name == "append":
-                new = SV(smt.SeqConcat(recv.term, smt.SeqUnit(ops.term(self.narrow(args[0], recv.pt.args[0], st), recv.pt.args[0]))), recv.pt)
+                xt_ = ops.term(self.narrow(args[0], recv.pt.args[0], st), recv.pt.args[0])
+                new = SV(smt.SeqConcat(recv.term, smt.SeqUnit(xt_)), recv.pt)
+                self.seq_membership_facts(st, recv, new, added=xt_)
                 self.store_place(place, new, st, inplace=True)
                 return None
+            if k == "seq" and name in ("popleft", "remove"):
+                # collections.deque / list as a sequence: popleft() removes and returns the first element; remove(x) removes the first
+                # occurrence of x.  The new sequence is given element-wise (length and every position).
+                ept = recv.pt.args[0]
+                ln = smt.SeqLen(recv.term)
+                if name == "popleft":
+                    self.safety(st, smt.Gt(ln, smt.Int(0)), "popleft from a non-empty deque")
+                    pos = smt.Int(0)
+                else:
+                    xt = ops.term(self.narrow(args[0], ept, st), ept)
+                    pos = self.ctx.fresh_const("rmpos", "Int")
+                    j = smt.Var(smt.fresh_name("j"), "Int")
+                    self.safety(st, smt.Exists([(j.args[0], "Int")], smt.And(smt.Le(smt.Int(0), j), smt.Lt(j, ln), smt.Eq(smt.SeqNth(recv.term, j), xt))),
+                                "remove(x): x is in the deque (ValueError otherwise)")
+                    st.assume(smt.And(smt.Le(smt.Int(0), pos), smt.Lt(pos, ln), smt.Eq(smt.SeqNth(recv.term, pos), xt)))
+                    st.assume(smt.Forall([(j.args[0], "Int")], smt.Implies(smt.And(smt.Le(smt.Int(0), j), smt.Lt(j, pos)), smt.Not(smt.Eq(smt.SeqNth(recv.term, j), xt)))))
+                new = self.fresh("deq", recv.pt, st)
+                i = smt.Var(smt.fresh_name("i"), "Int")
+                st.assume(smt.Eq(smt.SeqLen(new.term), smt.Sub(ln, smt.Int(1))))
+                st.assume(smt.Forall([(i.args[0], "Int")], smt.Implies(
+                    smt.And(smt.Le(smt.Int(0), i), smt.Lt(i, smt.Sub(ln, smt.Int(1)))),
+                    smt.Eq(smt.SeqNth(new.term, i), smt.Ite(smt.Lt(i, pos), smt.SeqNth(recv.term, i), smt.SeqNth(recv.term, smt.Add(i, smt.Int(1))))))))
+                first = SV(smt.SeqNth(recv.term, smt.Int(0)), ept)
+                self.seq_membership_facts(st, recv, new, removed=(first.term if name == "popleft" else xt))
+                self.store_place(place, new, st, inplace=True)
+                return first if name == "popleft" else None
             if k == "seq" and name == "extend":
                 other = args[0]
                 if isinstance(other, list):
@@ -550,6 +586,32 @@ class CallMixin:
                 if c is not None:
                     return self.apply_contract(c, recv, args, kwargs, st, node)
         raise Unsupported(f"method {name} on {recv!r}")
+
+    def seq_membership_facts(self, st, old, new, added=None, removed=None):
+        """Membership-level consequences of `new = old ++ [added]` / `new = old without the first occurrence of removed` (lemmas of the
+        sequence theory, stated because the back ends do not derive them from the element-wise description under quantifiers).  Only
+        emitted when the contracts talk about membership in sequences of this element sort."""
+        from .types import mangle
+
+        es = self.tenv.sort(old.pt.args[0])
+        if "mem_" + mangle(es) not in self.ctx.funcs:
+            return
+        ops = self.ops
+        e = smt.Var(smt.fresh_name("e"), es)
+        m_old, m_new = ops.seq_mem(old.term, e), ops.seq_mem(new.term, e)
+        if added is not None:
+            st.assume(smt.Forall([(e.args[0], es)], smt.Eq(m_new, smt.Or(m_old, smt.Eq(e, added))), patterns=((m_new,), (m_old,))))
+            return
+        st.assume(smt.Forall([(e.args[0], es)], smt.Implies(m_new, m_old), patterns=((m_new,),)))
+        st.assume(smt.Forall([(e.args[0], es)], smt.Implies(smt.And(m_old, smt.Not(smt.Eq(e, removed))), m_new), patterns=((m_old,),)))
+        i, j = smt.Var(smt.fresh_name("i"), "Int"), smt.Var(smt.fresh_name("j"), "Int")
+
+        def distinct(t):
+            return smt.Forall([(i.args[0], "Int"), (j.args[0], "Int")], smt.Implies(
+                smt.And(smt.Le(smt.Int(0), i), smt.Lt(i, j), smt.Lt(j, smt.SeqLen(t))), smt.Not(smt.Eq(smt.SeqNth(t, i), smt.SeqNth(t, j)))))
+
+        # a duplicate-free sequence stays duplicate-free and no longer contains the removed element
+        st.assume(smt.Implies(distinct(old.term), smt.And(distinct(new.term), smt.Not(ops.seq_mem(new.term, removed)))))
 
     def find_method_contract(self, cls, name, args=None):
         cs = self.E.registry.by_method.get((cls, name))
